@@ -200,7 +200,7 @@ def rerun_refactors(only=None):
         meta = json.load(open(os.path.join(d, "meta.json")))
         meta["alarms"] = alarms
         json.dump(meta, open(os.path.join(d, "meta.json"), "w"), indent=1)
-        print(rid, "QUIET" if not alarms else "ALARM %s" % {k: [x[:90] for x in v] for k, v in alarms.items()})
+        print(rid, "QUIET" if not alarms else "ALARM %s" % {k: [x[:200] for x in v] for k, v in alarms.items()})
         if alarms:
             bad.append(rid)
     print("\n%d refactorings raise an alarm: %s" % (len(bad), bad))
